@@ -20,12 +20,13 @@ PROFILE="${VERIF_PROFILE:-dev}"
 PROFILE_FLAG=""; [ "$PROFILE" = "release" ] && PROFILE_FLAG="--release"
 HASH=$( (cd "$REPO" && { find src proto build.rs Cargo.toml Cargo.lock -type f 2>/dev/null | LC_ALL=C sort | xargs sha256sum; sha256sum "$DRV"; echo "$PROFILE"; }) | sha256sum | cut -c1-24)
 OUT="$CACHE/facts/$HASH.json"
-if [ -s "$OUT" ]; then echo "$OUT"; exit 0; fi
+# (a cache hit refreshes the file's age: the pruning below never removes a fact base that was handed out recently)
+if [ -s "$OUT" ]; then touch -c "$OUT" 2>/dev/null || true; echo "$OUT"; exit 0; fi
 
 # one extraction at a time (19 checks may start concurrently)
 exec 9>"$CACHE/extract.lock"
 flock 9
-if [ -s "$OUT" ]; then echo "$OUT"; exit 0; fi
+if [ -s "$OUT" ]; then touch -c "$OUT" 2>/dev/null || true; echo "$OUT"; exit 0; fi
 
 TMPF="$(mktemp -d "$CACHE/facts/tmp.XXXXXX")"
 trap 'rm -rf "$TMPF"' EXIT
